@@ -367,6 +367,11 @@ func c15(c *fw.Ctx) {
 						return
 					}
 					r.Nontrivial(e.Name + "|" + text)
+					if e.Name == "GB18030" {
+						if b, _ := e.csEncode(text); len(b) > 2*len([]rune(text)) {
+							r.Tally("gb18030_four_byte_texts")
+						}
+					}
 				}
 				if k == 0 {
 					r.Sample(map[string]interface{}{"kind": "multi-byte", "charset": e.Name, "example": csRandomText(rng, e, 6)})
@@ -420,7 +425,7 @@ func c15(c *fw.Ctx) {
 			for rep := 0; rep < 10; rep++ {
 				var sb strings.Builder
 				n := 1 + rng.Intn(40)
-				kind := rng.Intn(8)
+				kind := rng.Intn(9)
 				if kind == 7 {
 					// long payloads: an ASCII prefix whose length straddles round numbers of bytes
 					// (a decoder that inspects only a prefix of the segment must still see what follows),
@@ -455,6 +460,12 @@ func c15(c *fw.Ctx) {
 						}
 					case 7:
 						sb.WriteRune([]rune{0xE9, 0x3042, 0x4E2D, 0x1F600, 0x439}[rng.Intn(5)])
+					case 8: // only four-byte characters, every continuation byte in 0xA0..0xBF (plane 2), between ASCII
+						if i%3 == 1 {
+							sb.WriteByte(byte(0x20 + rng.Intn(0x5F)))
+						} else {
+							sb.WriteRune(rune(0x20000 + rng.Intn(0x10)<<12 + (0x20+rng.Intn(0x20))<<6 + 0x20 + rng.Intn(0x20)))
+						}
 					default: // CJK
 						sb.WriteRune(rune(0x4E00 + rng.Intn(0x5000)))
 					}
@@ -626,5 +637,7 @@ func c15(c *fw.Ctx) {
 	c.Floor("decode_hint_honoured", 30)
 	c.Floor("decode_hint_honoured_adversarial_payloads", 400)
 	c.Floor("utf8_nohint_kind_7", 100)
+	c.Floor("utf8_nohint_kind_8", 100)
+	c.Floor("gb18030_four_byte_texts", 100)
 	c.Floor("single_byte_code_points_covered", 3000)
 }
